@@ -146,10 +146,10 @@ class Gro(Adapter):
 
         def check(d):
             bad = []
-            f32 = 2.0**-23
+            f32 = 2.0**-50  # the reader keeps double precision (fa4f07a); earlier float32 storage lost printed digits
             pos = np.array([[F.fx_float(p, 3) for p in a[3]] for a in atoms]).reshape(natom, 3)
             vel = np.array([[F.fx_float(v, 4) for v in a[4]] for a in atoms]).reshape(natom, 3)
-            # the reader stores float32: tolerance = float32 rounding of value and of the unit product
+            # tolerance: double rounding of value and of the unit product
             if not np.all(np.abs(d.atcoords / nanometer - pos) <= 2 * f32 * np.abs(pos) + 1e-30):
                 bad.append("atcoords")
             if not np.all(np.abs(d.extra["velocities"] / (nanometer / picosecond) - vel) <= 2 * f32 * np.abs(vel) + 1e-30):
